@@ -173,6 +173,53 @@ fn p_str_ext_write() {
         assert!(rec.calls == 2 && rec.tag == 41, "C02 exactly one call of the right method per request");
     }
 }
+/// records what a formatter writes: the total length and the bytes at ten fixed positions of the
+/// concatenated text (both ends of every piece boundary of the implementor's output) — no per-byte
+/// loop, and independent of how the text is cut into pieces on the way
+const SAMPLE: [usize; 10] = [0, 1, 2, 3, 4, 70, 71, 72, 73, 74];
+struct Sink { at: [u8; 10], n: usize, pieces: u32 }
+impl core::fmt::Write for Sink {
+    fn write_str(&mut self, s: &str) -> core::fmt::Result {
+        let b = s.as_bytes();
+        self.pieces += 1;
+        macro_rules! samp { ($($k:literal)*) => { $( { let p = SAMPLE[$k]; if p >= self.n && p - self.n < b.len() { self.at[$k] = b[p - self.n]; } } )* } }
+        samp!(0 1 2 3 4 5 6 7 8 9);
+        self.n += b.len();
+        Ok(())
+    }
+}
+fn ext_fmt_case(fail: bool, debug: bool) {
+    // builtin formatting glue (Display / Debug of an opaque object): the text the implementor
+    // writes reaches the caller's formatter byte for byte and in order, whatever the piece sizes,
+    // and its error returns unchanged
+    use core::fmt::Write;
+    let mut rec = Rec::default();
+    rec.out_variant = fail as u8;
+    let mut direct = Sink { at: [0; 10], n: 0, pieces: 0 };
+    let mut through = Sink { at: [0; 10], n: 0, pieces: 0 };
+    let (r1, r2);
+    {
+        let im = imp(&mut rec);
+        r1 = if debug { write!(direct, "{:?}", im) } else { write!(direct, "{}", im) };
+        core::mem::forget(im);
+    }
+    {
+        let im = imp(&mut rec);
+        if debug { let obj = trait_obj!(im as Debug); r2 = write!(through, "{:?}", obj); core::mem::forget(obj); }
+        else { let obj = trait_obj!(im as Display); r2 = write!(through, "{}", obj); core::mem::forget(obj); }
+    }
+    assert!(r1.is_err() == r2.is_err() && r2.is_err() == (fail && !debug), "C02 the formatting result returns unchanged");
+    assert!(rec.calls == 2, "C02 exactly one call of the implementor's fmt per request");
+    assert!(direct.n == through.n, "C02 the same number of bytes reaches the caller's formatter");
+    assert!(direct.n == if fail && !debug { 73 } else if debug { 73 } else { 75 }, "(the implementor wrote what the harness expects)");
+    macro_rules! cmp { ($($k:literal)*) => { $( assert!(direct.at[$k] == through.at[$k], "C02 the formatted text crosses unchanged and in order (sampled at both ends of every piece)"); )* } }
+    cmp!(0 1 2 3 4 5 6 7 8 9);
+    kani::cover!(true, "end");
+}
+// (concrete cases, constant-folded: stays decidable whatever the glue does with the pieces)
+#[kani::proof] #[kani::unwind(4)] fn p_str_ext_fmt_display() { ext_fmt_case(false, false); }
+#[kani::proof] #[kani::unwind(4)] fn p_str_ext_fmt_display_err() { ext_fmt_case(true, false); }
+#[kani::proof] #[kani::unwind(4)] fn p_str_ext_fmt_debug() { ext_fmt_case(false, true); }
 //@ prefix=p_opt kind=property clause=Option<T> (wrapped), Option<&T> (forwarded), Result<T,E> (wrapped): variant and payload arrive and return unchanged
 #[kani::proof]
 fn p_opt_res() {
@@ -224,6 +271,29 @@ fn p_int_result() {
     }
     kani::cover!(ov == 1 && (wv as i32) < 0, "negative error code");
     kani::cover!(ov == 0, "ok");
+}
+#[kani::proof]
+fn p_int_result_scope() {
+    // a plain Result method declared AFTER a method-level #[int_result] one keeps the whole error
+    // value (here: an io::Error that is a kind, not an OS code)
+    let mut rec = rec0();
+    let v: u32 = kani::any();
+    let (ov, op, wv) = (rec.out_variant, rec.out_payload as u32, rec.wval as i32 | 1);
+    let marked: bool = kani::any();
+    let obj = trait_obj!(imp(&mut rec) as Shapes2);
+    let r = if marked { obj.io_marked(v) } else { obj.io_plain_after(v) };
+    core::mem::forget(obj);
+    assert!(rec.calls == 1 && rec.tag == if marked { 28 } else { 29 } && rec.payload == v as u64, "C02 exactly one call of the right method with the argument");
+    match r {
+        Ok(x) => assert!(ov == 0 && x == op, "C02 Ok payload returns unchanged"),
+        Err(e) => {
+            assert!(ov != 0, "C02 the variant returns unchanged");
+            if marked { assert!(e.raw_os_error() == Some(wv), "C02 integer-coded error: the OS code returns unchanged"); }
+            else { assert!(e.raw_os_error().is_none() && e.kind() == std::io::ErrorKind::NotFound, "C02 a Result that is NOT integer-coded returns its whole error value (kind, no OS code)"); }
+        }
+    }
+    kani::cover!(!marked && ov != 0, "plain method, error");
+    kani::cover!(marked && ov != 0, "marked method, error");
 }
 //@ prefix=p_npo kind=property clause=forwarded (null-pointer-optimised) options — Option<NonZeroU32>, Option<&mut T> in / Option<&T> out, Option<extern "C" fn> — and Result<(),E>: variant, payload and address arrive and return unchanged; writes through Option<&mut T> are visible
 extern "C" fn twice(x: u32) -> u32 { x.wrapping_mul(2) }
